@@ -1,31 +1,39 @@
 /-
   Model of `cherrypy.lib.sessions` as seen through the sessions tool (C14).  Core Lean only.
 
-  What is modelled (statement by statement, repaired tree = /repo HEAD with the `fix:` commits
-  5ad5690, 8042c0e, cb095fc):
-  * the durable store `RamSession.cache` / the `session-<id>` files as an association list
-    `id ↦ Rec`; a record is `good data expiry` or (file backend only) `bad e`: a file on which
-    `pickle.load` raises an exception of class `e` (`eof` = EOFError, `unpickling` =
+  What is modelled (statement by statement, /repo HEAD with the `fix:` commits 5ad5690, 8042c0e,
+  cb095fc, a78b01e, 5296cd5):
+  * the durable store `RamSession.cache` / the `session-<id>` files / the memcached entries as an
+    association list `id ↦ Rec`; a record is `good data expiry` or (file backend only) `bad e`: a file on
+    which `pickle.load` raises an exception of class `e` (`eof` = EOFError, `unpickling` =
     pickle.UnpicklingError, `other` = any other class).  `pickle` itself is a parameter
     (`Pickle`, with its measured contract `Pickle.Contract`), see the end of the file.
   * a logical clock `now`; `Session.now()` and `timedelta(seconds=timeout*60)` are `now` and
     `+ timeout` (one tick = one minute in the harness).
   * the id source `generate_id` = `cfg.gen ctr` (a function of how many ids were drawn so far).
-  * `Session.__init__` (adopt iff `_exists()`, else `missing` → `_regenerate()`), `_regenerate`
-    (delete the old stored copy, draw ids until one is unused), `load` (`None` or
-    `expiry < now` ⇒ `{}`; `_load` maps IOError/EOFError/UnpicklingError to `None`, any other
-    class propagates → 500), `__setitem__`/`pop`/`clear`/`items` (load on first access),
-    `delete` (repaired: also forgets the request's copy; `cfg.deleteForgets = false` is the code
+  * which cookie of the Cookie header is presented (`presentedOf`: `request.cookie[name]`, last pair of
+    that name wins), `Session.__init__` (adopt iff `_exists()`, else `missing` → `_regenerate()`; an id
+    spelled otherwise than the server issued it is an id the store does not hold: a78b01e, cb095fc),
+    `_regenerate` (delete the old stored copy, draw ids until one is unused), `load` (`None` or
+    `expiry < now` ⇒ `{}`; `_load` maps IOError/EOFError/UnpicklingError to `None`, any other class
+    propagates → 500), the whole dict interface (`items`/`keys`/`values`, `__setitem__`, `pop(k, d)`,
+    `clear` as `HOp`s of their own, `get`/`__getitem__`/`__contains__`/`setdefault`/`update`/`pop(k)`/
+    `__delitem__` as `Acc`; each loads on first access), `__len__` (number of stored sessions, does not
+    load), `delete` (repaired: also forgets the request's copy; `cfg.deleteForgets = false` is the code
     before 8042c0e, kept for the negation theorem), `sessions.expire` (cookie only),
-    `SessionTool.regenerate` (regenerate + fresh cookie attributes), the `save` hook
-    (`_save(now + timeout)` iff `loaded`), `RamSession.clean_up` (`expiry ≤ now`),
-    `FileSession.clean_up` (`expiry < now`; `_load → None` skipped; another exception class
-    leaves the loop), `FileSession._get_file_path` answering 400 to an id that leaves the
-    storage directory.
-  Not modelled: locks (C13), the Monitor thread that calls `clean_up`, cookie attributes other
-  than "expired in the past", aliasing of `RamSession`'s cached dict with the request's `_data`
-  (not observable between sequential requests: every loading request ends in `save`),
-  `MemcachedSession`, the text of ids (an id is a `Nat`; the harness numbers real ids).
+    `SessionTool.regenerate` (regenerate + cookie attributes), a handler that raises (`raise`: 500, the
+    `save` hook does not run), the `save` hook (`_save(now + timeout)` iff `loaded`),
+    `RamSession.clean_up` (`expiry ≤ now`), `FileSession.clean_up` (`expiry < now`; `_load → None`
+    skipped; another exception class leaves the loop), `FileSession._get_file_path` answering 400 to an
+    id that leaves the storage directory, the response cookie (`set_response_cookie` from `init` and
+    from `SessionTool.regenerate`, `expire`), the start-once logic of the cleanup Monitor in `load`,
+    two overlapping requests (`overlap`), and `MemcachedSession` as a store that expires entries by
+    itself (`memStep`: the RAM transitions on the store swept with `expiry ≤ now`).
+  Not modelled: locks (C13), the Monitor thread itself (the harness calls the callback the code
+    registered), aliasing of `RamSession`'s cached dict with the request's `_data` (observable only when
+    a handler raises after writing: the generator does not do that on the RAM backend), the text of ids
+    (an id is a `Nat`; the harness numbers real ids), `Session.regenerate()` called directly instead of
+    through the tool (same store transition; its cookie is not compared).
   The real `_regenerate` loop does not terminate when the id source never yields an unused id;
   the model gives up after `|store| + 1` draws (status `diverged`), which cannot happen for an
   injective source (`CpProofs.C14.regen_total`).
@@ -161,12 +169,12 @@ def initSess (cfg : Cfg) (st : St) : Cookie → Except Status (Sess × St)
       | none => .error .diverged
       | some (i, st') => .ok ({ id := i }, st')
 
-/-- `Session.load` (`none` = `_load` let an exception through). -/
+/-- `Session.load`.  Since the F14d repair `_load` maps every exception of `pickle.load` (and a pickle
+    of another shape) to "no session", so the result is never `none` any more. -/
 def loadData (st : St) (i : Id) : Option Data :=
   match lookup st.store i with
   | none => some []
   | some (.good d e) => if e < st.now then some [] else some d
-  | some (.bad .other) => none
   | some (.bad _) => some []
 
 def ensureLoaded (st : St) (s : Sess) : Option Sess :=
@@ -440,13 +448,12 @@ def sweepRam (now : Nat) : Store → Store
   | (i, .bad x) :: rest => (i, .bad x) :: sweepRam now rest
 
 /-- `FileSession.clean_up` over the files in listing order; the flag says the loop was left by an
-    exception (`_load` raised something it does not catch). -/
+    exception (`_load` raised something it does not catch: impossible since the F14d repair). -/
 def sweepFile (now : Nat) : Store → Store × Bool
   | [] => ([], false)
   | (i, .good d e) :: rest =>
     let r := sweepFile now rest
     (if e < now then r.1 else (i, .good d e) :: r.1, r.2)
-  | (i, .bad .other) :: rest => ((i, .bad .other) :: rest, true)
   | (i, .bad e) :: rest =>
     let r := sweepFile now rest
     ((i, .bad e) :: r.1, r.2)
